@@ -305,8 +305,8 @@ func runLinkedSetOrder[T comparable](c *core.Ctx, d *Dom[T]) {
 
 func runC09(c *core.Ctx) {
 	c.SetGaps((c.Index/4)%2 == 1)
-	if c.Index%97 == 11 { // hundreds of live keys
-		c.Count("linked:wide-cases", 1): removal positions deep inside a long order list
+	if c.Index%97 == 11 { // hundreds of live keys: removal positions deep inside a long order list
+		c.Count("linked:wide-cases", 1)
 		if c.Index%2 == 0 {
 			runLinkedMapOrder(c, IntDom(c.R.Range(200, 600)))
 		} else {
